@@ -166,6 +166,32 @@ pub fn run_c01(tier: &str) -> Report {
         })
         .collect();
     rep.sink.extend(vs);
+    // vertices and edge midpoints of coarse cells, looked up at every finer resolution (each is on
+    // a cell boundary at every finer level too: the lookup has to fall back or pick a touching cell)
+    let rv = if tier == "quick" { 2 } else { 4 };
+    let coarse = en::all_upto(rv);
+    let vs: Vec<Viol> = coarse
+        .par_iter()
+        .flat_map(|&c| {
+            let mut out = Vec::new();
+            let res = rc::resolution(c).unwrap();
+            let (face, poly) = match geo::cell_poly(c) {
+                Ok(x) => x,
+                Err(_) => return out,
+            };
+            for q in geo::cell_interior_points(&poly, &[1.0]).into_iter().skip(1) {
+                if let Ok(v) = subj::inverse(q, face) {
+                    let (lon, lat) = rg::vec_to_ll(v);
+                    for r in (res + 1)..=29 {
+                        hug.fetch_add(1, Ordering::Relaxed);
+                        out.extend(check_lookup(lon, lat, r, &st, false));
+                    }
+                }
+            }
+            out
+        })
+        .collect();
+    rep.sink.extend(vs);
     let br = st.branches.lock().unwrap().clone();
     let hard: u64 = br.iter().filter(|(k, _)| **k > 1).map(|(_, v)| *v).sum();
     rep.set("evaluations", json!(st.evals.load(Ordering::Relaxed)));
